@@ -43,6 +43,26 @@ NEEDS = {
  "C18-b": "country tables stored as fixed-width cells; the name width 28 drops the terminator of the one 28-character name (argument 192)",
  "C19-b": "function-local static flag 'LF/MF follows' set when the second AF code is 250: the next 0A group of ANY instance loses its first AF",
  "C20-b": "an #ifdef RDSPARSER_DISABLE_UNICODE shortcut in the pair store decides 'same data' for both cells from the first cell's level: only the narrow builds, only when the two cells of a pair hold different levels and a re-delivery arrives at a level in between",
+ "C01-c": "TA/MS guard 'block B error-free' replaced by an early return on 'block B above the PS info threshold': with the PS info threshold raised, TA/MS are taken from a corrected (not error-free) block B of a type-0 group",
+ "C02-c": "'unchanged ASCII cell' fast path compares the raw input byte with the stored code point: a cell holding '$' (from byte 0xAB) ignores a later error-free byte 0x24, which should store U+00A4 (1 of 50 176 previous/new byte pairs per cell)",
+ "C03-c": "merged RT flag guards latch the A/B flag from a block B of any error level when no flag is known yet: RT info threshold raised, first type-2 group after a reset has an uncorrectable block B, then an accepted noisy group of the opposite flag is dropped",
+ "C04-c": "string_clear returns 'something discarded' computed with 'level < 9': an RT buffer whose cells were all stored at the worst acceptable level (both RT thresholds LARGE, block B and data blocks at level 2) is emptied by an A/B switch-back without the RT callback",
+ "C05-c": "update_string resolves the RT buffer as rt[last_rt_flag]: with the RT info threshold raised and no clean type-2 group since the reset, an accepted noisy group writes through rt[-1] (out of bounds, before the object)",
+ "C06-c": "same-data decision taken once per 2-character chunk: thresholds above 0, non-progressive, a cell holding the same character at a better level whose partner cell differs is overwritten with the worse level",
+ "C07-c": "progressive guard evaluated once per chunk against the first cell: first character refused earlier and second accepted, then a reception at a level between the two cells overwrites the second cell",
+ "C08-c": "group 2 returns early when no text block passes the thresholds, before the A/B flag handling: a switch-back group with clean block B and all text rejected no longer empties the buffer nor records the flag",
+ "C09-c": "PI reaches set_pi only when it differs from the visible value: extended check, a stale PI candidate is not cancelled (A A B A B makes B visible)",
+ "C10-c": "new per-instance flag 'LF/MF follows' set when the second AF byte is 250: the first AF code (1..135) of the next clean 0A group is dropped",
+ "C11-c": "1A variant 0 returns early when the ECC equals the stored ECC and a country is known: the country is not recomputed after the PI country nibble changed; under the extended check the candidate slot is not refreshed either (y x y adopts y)",
+ "C12-c": "date conversion skipped when the MJD equals the previous group's and the local minute-of-day did not go backwards: two CT groups with the same MJD whose offsets put them on different local days report the first one's date",
+ "C13-c": "clear skips the RT state when last_rt_flag is -1: RT info threshold raised, only noisy accepted RT groups since the last reset, then clear leaves the RT cells",
+ "C14-c": "parse_string caches the last converted line while the extended check is on and matches it with strncmp(.., 18): an 18-digit line followed by the same 18 characters plus any suffix is accepted",
+ "C15-c": "group 4 case of the dispatcher: early break when no CT callback is registered, and the case's own break dropped: with a CT callback registered every 4A group falls through into the PTYN handler",
+ "C16-c": "update_string loops over the data blocks but gates every block with the FIRST block's error level: block D of a 2A/10A group with error 3 is stored (level 10 or 12) when block C passes and the info threshold is raised",
+ "C17-c": "RT progressive forced on around the string updates for a corrected block B and restored afterwards, but the A/B 'bit-flip' early return skips the restore: the RT progressive setting reads true without a setter call",
+ "C18-c": "ISO codes packed without terminators; the lookup copies two characters into a function-local static buffer and returns it: every returned ISO string changes with the next lookup (each call still correct at the moment of return)",
+ "C19-c": "static one-entry memo in ecc_lookup keyed on (PI >> 12) & 15 without the 'PI known' guard: an unknown PI aliases nibble F, so one instance's lookup leaks into another's country",
+ "C20-c": "narrow-build space substitution moved into the parser and re-checking only the data block's error: only the RDSPARSER_DISABLE_UNICODE builds, info threshold raised, block B corrected, data block clean, byte >= 0x7F: the cell is overwritten with a space",
  "C20-a": "end-of-line decided on the converted character: in the RDSPARSER_DISABLE_UNICODE builds an error-free 0x00 byte is stored as end-of-text marker; default build unaffected",
 }
 for sid in sorted(os.listdir(os.path.join(VERIF, "seeded"))):
